@@ -539,7 +539,17 @@ def _roundtrip_call(M, P, x, kind, loc, fmt, tzf, via_default, localized, mon, e
             value=x.isoformat(), got=[list(got[0]), got[1]], expected=[list(want[0]), want[1]])
     M.cls(mon, dform if localized else dflag, tflag, nd, tzf, esc, kind, loc if localized else "")
     # a string that does not match must raise ValueError
-    for bad_s, why in ((s + "!", "trailing"), ("!" + s, "leading")):
+    bads = [(s + "!", "trailing"), ("!" + s, "leading")]
+    zname_ = getattr(x.tzinfo, "name", "") or ""
+    if tzf == "z" and zname_ and s.endswith(zname_):
+        # zone names that are not zones: a directory of the tz database (the name cut at a "/"), a misspelt name
+        head = s[: -len(zname_)]
+        if "/" in zname_:
+            bads.append((head + zname_.rsplit("/", 1)[0], "zone-directory"))
+            bads.append((head + zname_.split("/", 1)[0], "zone-directory"))
+        bads.append((head + zname_ + "x", "zone-misspelt"))
+        bads.append((head + zname_[:-1], "zone-truncated") if zname_[:-1] not in M.pendulum.timezones() else (s + "!", "trailing"))
+    for bad_s, why in bads:
         try:
             P.from_format(bad_s, fmt, locale=loc)
             M.check("mismatch", False, f"C08/mismatch-accepted:{why}", "a string that does not match the format was accepted", fmt=fmt, string=bad_s)
